@@ -71,6 +71,18 @@ func init() {
 			}
 		},
 	}
+	plans["C03"] = &Plan{
+		Level: "exploration",
+		Rule: "case = (type, value, how it is passed: value / pointer / element of []interface{} / value of map[string]interface{}). Types as in C01 (random reflect-built + catalogue incl. Marshaler/TextMarshaler on value and pointer receivers, erroring and invalid-output marshalers, pointer-keyed maps); values: boundary numbers, NaN/Inf, invalid UTF-8, HTML characters, invalid json.Number text, nil vs empty containers, maps with 11/12/13/40/41/60 keys and long common prefixes, typed values inside interface{}. Oracle: encoding/json.Marshal of the same argument; outputs compared as token streams (punctuation, order, number literals byte-exact, strings by denoted value). distinct = hash(type descriptor, passing mode, canonical value dump); non-trivial = output has >= 2 bytes or an error",
+		Assumptions: stdAssumptions, MinEvals: 20000, MinEvalsThorough: 1000000,
+		Runs: func(string) []*Run {
+			return []*Run{
+				{Name: "jit", Flavor: "plain", NBatch: 16, TimeoutS: n(900, 3000)},
+				{Name: "jit-sse", Flavor: "plain", NBatch: n(2, 8), Env: []string{"SONIC_MODE=noavx2"}, TimeoutS: n(900, 3000)},
+				{Name: "vm", Flavor: "plain", NBatch: n(2, 8), Env: []string{"SONIC_ENCODER_USE_VM=1"}, TimeoutS: n(900, 3000)},
+			}
+		},
+	}
 	plans["C19"] = &Plan{
 		Level: "exploration",
 		Rule: "decode: seeded number literals (boundary integers of every width +-2, 15-22 and 30-1100 digit mantissas, exponents around +-308/324/400, long zero runs, exact float64/float32 midpoints built with math/big and perturbed in a far digit, subnormal/min-normal/max boundaries, zeros) through 30+ routes per literal (float64/float32/every integer width/json.Number/interface{} under default, UseNumber, UseInt64/',string' fields/integer map keys/ast accessors/Interface/Preorder callbacks) against strconv and encoding/json; " +
